@@ -19,12 +19,15 @@ def model(run):
     core.check_coverage(res)
     run.add_tlc(res, "Delivery.tla: compile() as internal_compile / open / write over every mode x destination state x input class")
     plans = res.printed("CASE")
-    if len(plans) < 380:
-        raise ToolError(f"expected 412 plans, got {len(plans)}")
+    if len(plans) < 600:
+        raise ToolError(f"expected 620 plans, got {len(plans)}")
     # the design without a flush before output_generated returns must be refuted: Ok although the unterminated last
     # line is still in the stream's buffer, lost on a full device or a broken pipe
     neg = core.tlc("mc/MC_C20.tla", "mc/MC_C20_noflush.cfg", workers=1, timeout=600, xmx="4g", expect_violation=True)
     run.cov["design_variant_refuted"] = {"no flush of standard output before compile() returns": neg.violated}
+    # ... and the design that reports a failing formatter as Err after the text has been delivered
+    neg = core.tlc("mc/MC_C20.tla", "mc/MC_C20_fmterr.cfg", workers=1, timeout=600, xmx="4g", expect_violation=True)
+    run.cov["design_variant_refuted"]["a failing rustfmt reported as Err after delivery"] = neg.violated
     return plans
 
 
@@ -110,10 +113,10 @@ def check(tier):
     t = TIERS[tier]
     plans = model(run)
     sets = c02.generate(run, tier, **t["sim"])
-    run.case_of = lambda ev: {k: ev.get(k) for k in ("api", "backend", "srcform", "mode", "dest", "input", "asn")}
+    run.case_of = lambda ev: {k: ev.get(k) for k in ("api", "backend", "srcform", "mode", "dest", "input", "fmt", "asn")}
     bcases = builder_model(run, tier)
     run.case_of = lambda ev: ({k: ev.get(k) for k in ("backend", "calls", "final", "out", "forms", "state")} if ev.get("ev") == "builder"
-                              else {k: ev.get(k) for k in ("api", "backend", "srcform", "mode", "dest", "input", "asn")})
+                              else {k: ev.get(k) for k in ("api", "backend", "srcform", "mode", "dest", "input", "fmt", "asn")})
     events = drive_and_validate(run, plans, sets, t["per_plan"], shards=2 if tier == "quick" else 8, n_macro=t["n_macro"], builder_cases=bcases)
     builders = [e for e in events if e["ev"] == "builder"]
     run.cov["builder_call_sequences"] = len(bcases)
@@ -129,7 +132,7 @@ def check(tier):
     run.cov["evaluations"] = len(events) + len(macros) + len(builders)
     run.cov["plans"] = len(plans)
     run.cov["module_sets"] = len(sets)
-    for k in ("api", "backend", "srcform", "mode", "dest", "input", "result", "target_after", "stdout", "shape"):
+    for k in ("api", "backend", "srcform", "mode", "dest", "input", "fmt", "result", "target_after", "stdout", "shape"):
         c = {}
         for e in events:
             c[e.get(k)] = c.get(e.get(k), 0) + 1
@@ -150,4 +153,4 @@ def check(tier):
 
 
 def replay(payload):
-    return core.replay_by_rerun("C20", check, payload, keys=("api", "backend", "srcform", "mode", "dest", "input", "asn"))
+    return core.replay_by_rerun("C20", check, payload, keys=("api", "backend", "srcform", "mode", "dest", "input", "fmt", "asn"))
